@@ -143,6 +143,7 @@ ENSURES(RET == 1 IMPLIES ((in[0] == 0x00 && inlen == 1 && VAL4(P->Z) == 0)
 
 #endif
 
+#ifndef CONTRACT_GET_XY_UF
 int sm2_z256_point_get_xy(const SM2_Z256_POINT *P, uint64_t x[4], uint64_t y[4])
 REQUIRES(R_OK(P, sizeof(*P)) && W_OK(x, 32) && (y == NULL || W_OK(y, 32)))
 ASSIGNS(OBJ_UPTO(x, 32); y != NULL: OBJ_UPTO(y, 32))
@@ -151,6 +152,8 @@ ENSURES((RET == 0) == ISINF(P))
 /* affine representative: x = from_mont(X), y = from_mont(Y) */
 ENSURES((RET == 1 && V256(P->Z) == BV_MONT_ONE) IMPLIES V256(x) == FROMMONT(V256(P->X)) && (y == NULL || V256(y) == FROMMONT(V256(P->Y))))
 ;
+
+#endif
 
 /* C12: compress then decompress returns the same point => the 32 bytes after the prefix are x, the prefix is 02|parity(y) */
 int sm2_z256_point_to_compressed_octets(const SM2_Z256_POINT *P, uint8_t out[33])
